@@ -12,6 +12,7 @@ mod harness;
 mod json;
 mod props;
 mod rng;
+mod textgen;
 mod util;
 
 use harness::{Cfg, Tier, H};
